@@ -89,15 +89,16 @@ _mk("C11",
     extra_tb=[TB_FLOAT, "strconv/encoding/json/fmt/regexp/net/url/strings/spf13-cast (oracles)"], exhaustive=True)
 
 _mk("C12",
-    ["Platypus.Model.Check"],
+    ["Platypus.Properties.C12"],
     rule="grok: 8 messages x 8 subjects (message, `_`, tag, int/float field, absent, variable, literal) x 11 patterns (typed captures int/float/str/bool, user pattern, unknown pattern, capture named like the subject) x trim flag (sampled quick / all thorough); "
          "19 pattern-scope programs (definition in outer/inner/sibling/loop blocks, shadowing, definition after use, nested references, bad definitions); default_time: 16 timestamps (every house layout, dateparse layouts, unparsable, numeric) x 10 zones (none, +h, -h:mm, IANA, abbreviations, invalid) x 2 subjects; "
-         "datetime: subject x precision x format; xml: 5 documents x 7 XPath x 3 destination forms; sql_cover; strict, engines answered by the harness",
-    technique="Lean 4 model of the extraction builtins' plumbing and of load-time pattern scoping (check pass) with the pattern/XPath/time/SQL engines as oracles + matrix correspondence",
-    level_text="The model decides which key is read, how the subject is stringified, in which scope a pattern name resolves (the harness compiles against exactly the definitions the model says are visible), "
+         "datetime: 9 subjects (int, float, numeric string, text, bool, blank-padded, absent, variable) x 4 precisions (s, ms, unknown) x 5 formats, answered by Go's time package directly; xml: 5 documents x 7 XPath x 3 destination forms; sql_cover; strict, engines answered by the harness",
+    technique="Lean 4 contract theorems for grok/xml/datetime/default_time/sql_cover (what is asked of the engine, where and with which type each answer is stored, failure leaves the point unchanged apart from default_time's pl_msg note) and for load-time pattern scoping (a block restores the pattern scopes, nested blocks see outer definitions, a grok site is compiled with exactly the visible definitions, an unknown pattern is rejected), engines as oracles + matrix correspondence",
+    level_text="Kernel-checked for every state, key, oracle and fuel: the equations of Properties/C12.lean (block_restores_patterns, nested_blocks_see_outer_patterns, grok_compiles_with_visible_patterns, unknown_pattern_rejected, grok_match/grok_match_fields/grok_no_match/grok_subject_absent, xml_*, sql_cover_*, datetime_*, default_time_*). "
+               "The model decides which key is read, how the subject is stringified, in which scope a pattern name resolves (the harness compiles against exactly the definitions the model says are visible), "
                "where and with which type each extracted value lands and what happens on failure; compared with the implementation over the matrix.",
-    level_note="What the engines extract (grok, xmlquery, dateparse + zone table via funcs.TimestampHandle/DateFormatHandle, obfuscate) is theirs: oracles. Partial by nature.",
-    extra_tb=[TB_FLOAT, "grok, xmlquery, dateparse/time zone table (funcs.TimestampHandle), funcs.DateFormatHandle, obfuscate (oracles)"], exhaustive=False)
+    level_note="What the engines extract (grok, xmlquery, dateparse + zone table via funcs.TimestampHandle, Go time formatting, obfuscate) is theirs: oracles. Partial by nature. datetime hands the engine the typed value (not its string form) and aborts the script with an error on failure; xml/sql_cover failures are silent; a capture onto an existing tag is stored as tag text (its type is lost): stated in the theorems.",
+    extra_tb=[TB_FLOAT, "grok, xmlquery, dateparse/time zone table (funcs.TimestampHandle), Go time.Format, obfuscate (oracles)"], exhaustive=False)
 
 _mk("C03",
     ["Platypus.Properties.C03", "Platypus.Properties.C02Facts"],
@@ -179,15 +180,41 @@ _mk("C19",
     exhaustive=True)
 
 _mk("C07",
-    ["Platypus.Model.Unquote"],
+    ["Platypus.Properties.C07"],
     rule="string literals: every body over the alphabet {\", ', `, \\, newline, NUL, a, 0, 7, x, u, e-acute, emoji} up to length 3 (quick) / 5 (thorough) inside each of the five quote styles; every escape form with valid and invalid digit counts and code points, "
          "with prefixes/suffixes; random longer strings; integers at every power of two +-1 and power of ten +-1 in decimal and both hexadecimal spellings with signs (-, +, --, '- '), malformed numbers; "
          "random float64 values round-tripped through three spellings; true/false/nil/null (and other keywords) in every letter case; one case per batch of literals; "
          "each literal is parsed by the real parser as `x = <lit>`; compared with the model (lexer + unquoter + number rules) and with the declarative denotation; strict",
-    technique="Lean 4 model of lexer+unquoter+number folding against an independent declarative denotation (theorems pending) + exhaustive literal-alphabet correspondence",
-    level_text="The literal's value as parsed by the implementation is compared with the model and with an independent grammar of Go-style escapes/raw forms, canonical decimal/hexadecimal integers and case-insensitive keywords, exhaustively over the alphabet.",
+    technique="Lean 4 theorems (lexer+unquoter model = independent declarative denotation for every valid-UTF-8 spelling; integers exact up to max int64, overflow to float, sign negates, keywords in any case) + exhaustive literal-alphabet correspondence with the real parser",
+    level_text="Kernel-checked for every valid-UTF-8 byte string that starts with a quote character: the value the model of lex.go+strutil.go assigns to the spelling (token must span the whole spelling) equals the declarative denotation (Go-style escapes, raw triple-quoted and back-quoted forms), and malformed/unterminated spellings are rejected by both; decimal/hexadecimal integers up to max int64 are exact, larger ones go to the float engine, a sign negates, keywords are case-insensitive. Tied to the parser by the exhaustive alphabet enumeration.",
     level_note="strconv.ParseFloat is an engine (oracle). Leading-zero integers follow Go base-0 rules (010 = 8): reported, not judged.",
     extra_tb=["strconv.ParseFloat (oracle)"], exhaustive=True)
+
+_mk("C01",
+    ["Platypus.Properties.C01"],
+    rule="random programs over the whole grammar from the typed generator with 1-in-5 ill-typed operands, extreme integers (+-2^53+-1, min/max int64), negative/reversed/out-of-range/overflowing slice bounds and steps, "
+         "object-less index expressions, attribute expressions, every builtin with the argument shapes its checker accepts, exit(), on random points (tags/fields of every type, nil, colliding names); "
+         "each program is loaded and run by the real engine in a worker process (panic, fatal error, timeout and OOM are classified) and by the model; "
+         "specification on the implementation's outcome: it is success or a script error carrying script name and position, never a panic/abort; distinct = distinct program text",
+    technique="Lean 4 theorem no_panic (every Go operation that can panic is an explicit panic result of the model, guarded as in the Go code; no checked script on any well-tagged world, signal, map order, engine oracle and fuel reaches one; by induction on fuel with a state invariant, 26 builtins) + random-program correspondence in a crash-isolating worker",
+    level_text="Kernel-checked for all checked programs (argument counts as the *Checking functions guarantee, for-in variables are identifiers), all well-tagged initial worlds with C10's point invariant, all signals, map orders, engine answers and fuel: the model run never ends in `panic`; the final state is again well formed. "
+               "Inputs are required to be representable (all integers int64: a Go invariant). The model is tied to runtime.go/funcs by random programs run through both.",
+    level_note="Partial: the model's panic points are hand-placed next to the Go operations they mirror (type assertions, index expressions, accessor calls) and validated by correspondence; Go runtime failures that are not language-level panics (stack exhaustion on cyclic values passed to printf/strfmt, out-of-memory) are outside the model; third-party engines (grok, xmlquery, dateparse) are oracles and their own panics are not modelled.",
+    extra_tb=[TB_FLOAT, "engines (grok, xmlquery, dateparse, strconv, regexp, encoding/json) are oracles: answered by the real libraries, assumed not to panic"])
+
+_mk("C06",
+    ["Platypus.Properties.C06", "Platypus.Properties.C06Facts"],
+    rule="exhaustive: every ordered pair of the 14 binary operators in both nestings (paren node exactly where the table requires) and with unary operands x 3 layouts; the 24 slice forms x 4 layouts; "
+         "random statement trees (depth <= 4) over every expression and statement form (calls with positional/named arguments, index/attribute/slice chains, list/map literals, all assignment kinds, if/elif/else, the 8 for shapes, for-in) "
+         "printed with only the parentheses held as paren nodes in 4 layout families (canonical, tight, random line ends at every SPACE_EOLS place with CR/blank variation, comments); "
+         "one in four also damaged by one non-layout edit (only model/implementation agreement is judged there); "
+         "specification: the real parser's tree equals the tree the text was printed from; correspondence: the model parser (lexer model + Parse.parse) equals the real parser on tree and on accept/reject; strict",
+    technique="Lean 4 round-trip theorem parse_print (for every statement/expression tree and every admissible spelling - only the parentheses held as paren nodes, any number of line ends at every SPACE_EOLS place, any separator runs, comments - the parser model returns exactly the tree; explicit fuel bound) + regenerated grammar facts (every production and action, precedence lines, goyacc regenerates gram_y.go byte for byte with no conflicts, documented table consistent; decide) + tree/layout correspondence with the real parser",
+    level_text="Kernel-checked for all trees and all layouts: parseItems maps every spelling (Spec/Layout.lean: PProg) of a tree list back to exactly that list - precedence and left associativity of the 14 binary operators, unary above them, index/attribute/slice/call chains, list/map literals, named arguments, all assignment kinds, if/elif/else, the 8 for shapes, for-in; corollaries layout_irrelevant, comments_irrelevant; an executable printer is inverted by the parser. "
+               "Regenerated and kernel-checked on every run: gram.y's productions, actions and %left/%right lines are the ones the model mirrors, gram_y.go is goyacc(gram.y) with no conflicts, the model's operator levels are the grammar's lines and agree with the documented table. "
+               "The model parser is tied to the real parser by generated trees x layouts (tree equality) and damaged texts (same accept/reject).",
+    level_note="The theorem is about the model parser over token items; the LALR automaton generated by goyacc is tied to the model by regenerated grammar facts and by correspondence (trusted: goyacc), and the lexer-level part of layout (blanks/comments between tokens do not change the other tokens) by the item-stream correspondence of C05 and of this check. Number spellings decided by strconv.ParseFloat are skipped by the model. Known finding: the reference's `a = b = 3` (right-associative `=`) is a syntax error.",
+    extra_tb=["goyacc (vendored copy of golang.org/x/tools v0.29.0 cmd/goyacc, used to regenerate and compare gram_y.go)"], exhaustive=False)
 
 _mk("C15",
     ["Platypus.Properties.C15"],
